@@ -121,8 +121,11 @@ class MatchingBindingFilter(BindingFilter):
                     f"any target deployment. Please check for potential typos in the filter: "
                     f"{filter_deployments - target_deployments}"
                 )
-        filtered_targets = set()
-        for target in targets:
+        # Preserve the declared order of the targets, as the scheduler
+        # evaluates them in order and selects the first admissible one
+        filtered_targets = [
+            target
+            for target in targets
             if any(
                 matching_rule.eval(
                     job=job,
@@ -130,13 +133,13 @@ class MatchingBindingFilter(BindingFilter):
                     service=target.service,
                 )
                 for matching_rule in self.matching_rules
-            ):
-                filtered_targets.add(target)
+            )
+        ]
         if len(filtered_targets) == 0:
             raise WorkflowExecutionException(
                 f"Filter {self.name} did not find any matching targets for job {job.name} with the provided inputs."
             )
-        return list(filtered_targets)
+        return filtered_targets
 
     @classmethod
     def get_schema(cls) -> str:
